@@ -138,7 +138,7 @@ partial def jsProps : JSProps → List (Str × JS)
 
 /-- the schema produced for the document admits nil (so that a union built from it meets the nil path) -/
 def admitsNull (j : JS) : Bool :=
-  match fromJS rejects false j with
+  match fromJS cur rejects false j with
   | .ok s => s.acceptsNull
   | .error _ => false
 
@@ -152,7 +152,7 @@ def strictSide : S → Bool
   | _ => false
 
 def hasStrictSide (j : JS) : Bool :=
-  match fromJS rejects false j with
+  match fromJS cur rejects false j with
   | .ok s => strictSide s
   | .error _ => false
 
@@ -322,7 +322,7 @@ partial def toJ1? : JS → Option J1
 /-- the case lies in the fragment of `c11_equiv_partial` (and of `c11_roundtrip`). -/
 def inFragment (d : JS) : Bool × Bool :=
   match toJ1? d with
-  | some j => (good j, good j && Gozod.C11.rt j)
+  | some j => (good cur j, good cur j && Gozod.C11.rt j)
   | none => (false, false)
 
 /-! ### root const / enum documents with array / object members -/
@@ -346,6 +346,15 @@ def pDJ : P DJ
 def DJ.conv : DJ → CE
   | .const v => fromConstJ v
   | .enum vs => fromEnumJ vs
+
+/-- ParseAny verdict / round-trip validity on the tree `cur` (an enum's Union is Nilable under C11-nullable-union). -/
+def DJ.parse : DJ → Json → Option Bool
+  | .const v, x => (fromConstJ v).parse x
+  | .enum vs, x => parseEnumFx cur vs x
+
+def DJ.rtValid : DJ → Json → Bool
+  | .const v, x => (fromConstJ v).rtValid x
+  | .enum vs, x => rtEnumFx cur vs x
 
 def DJ.members : DJ → List Json
   | .const v => [v]
@@ -402,7 +411,7 @@ def handle : List String → String
     | none => "unknown-keyword"
   | "conv" :: ts =>
     match pD ts with
-    | some (d, []) => outcome (fromJS rejects false d) ++ " " ++ outcome (fromJS rejects true d)
+    | some (d, []) => outcome (fromJS cur rejects false d) ++ " " ++ outcome (fromJS cur rejects true d)
     | _ =>
       match pDJ ts with
       | some (_, []) => "ok ok"        -- convertConst / convertEnum have no error path (and no strict-mode check of their own)
@@ -412,7 +421,7 @@ def handle : List String → String
     | some (d, ts) =>
       match pJ ts with
       | some (x, []) =>
-        match fromJS rejects false d with
+        match fromJS cur rejects false d with
         | .ok s =>
           let rs0 := dedup (why d ++ instReasons x)
           let (inEq, inRt) := inFragment d
@@ -431,7 +440,7 @@ def handle : List String → String
       | some (d, ts) =>
         match pJ ts with
         | some (x, []) =>
-          verdictStr (d.conv.parse x) ++ " " ++ b2s (d.valid x) ++ " " ++ b2s (d.conv.rtValid x) ++ " ~"
+          verdictStr (d.parse x) ++ " " ++ b2s (d.valid x) ++ " " ++ b2s (d.rtValid x) ++ " ~"
             ++ "\t" ++ ",".intercalate ((if d.inTheorem x then ["IN-EQ"] else []) ++ dedup (d.why x ++ instReasons x))
         | _ => "bad-op"
       | none => "bad-op"
